@@ -213,20 +213,21 @@ type batchCtx struct {
 }
 
 type harness struct {
-	sc       Scenario
-	dir      string
-	timeout  time.Duration
-	o        *vh.Out
-	mu       sync.Mutex
-	stats    map[string]int
-	crashes  map[string]int
-	hangs    map[string]int
-	runsBy   map[string]int
-	lateRuns int
-	fails    map[string]bool
-	leanOps  []leanLine
-	scnHex   string
-	samples  []string
+	sc                             Scenario
+	dir                            string
+	timeout                        time.Duration
+	o                              *vh.Out
+	mu                             sync.Mutex
+	stats                          map[string]int
+	crashes                        map[string]int
+	hangs                          map[string]int
+	runsKind, hangsKind, crashKind map[string]int // the same per (stage, batch kind)
+	runsBy                         map[string]int
+	lateRuns                       int
+	fails                          map[string]bool
+	leanOps                        []leanLine
+	scnHex                         string
+	samples                        []string
 }
 
 type leanLine struct {
@@ -244,7 +245,7 @@ func (h *harness) fail(sig, what string, t task, detail string) {
 	}
 	h.fails[sig] = true
 	bj, _ := json.Marshal(t.b)
-	replay := fmt.Sprintf("scenario %s\nrun batch=%d variant=%s fault=%s retry=%v times=20 derived=%s", h.scnHex, t.batch, t.variant, t.fault, t.retry, hex.EncodeToString(bj))
+	replay := fmt.Sprintf("scenario %s\nrun batch=%d variant=%s fault=%s retry=%v times=100 derived=%s", h.scnHex, t.batch, t.variant, t.fault, t.retry, hex.EncodeToString(bj))
 	if detail != "" {
 		for _, l := range strings.Split(detail, "\n") {
 			replay += "\n# " + l
@@ -323,6 +324,7 @@ func (h *harness) evaluate(bc *batchCtx, oc *outcome) {
 	h.stats["fault:"+t.fault.Kind]++
 	h.stats["variant:"+t.variant]++
 	h.runsBy[stageOf(t)]++
+	h.runsKind[stageOf(t)+"/"+t.b.Kind]++
 	h.mu.Unlock()
 	count := func(k string) {
 		h.mu.Lock()
@@ -337,6 +339,7 @@ func (h *harness) evaluate(bc *batchCtx, oc *outcome) {
 		if oc.has("call-returned err") && blocked {
 			h.mu.Lock()
 			h.hangs[stageOf(t)]++
+			h.hangsKind[stageOf(t)+"/"+t.b.Kind]++
 			h.mu.Unlock()
 			h.fail("hang-after-reject:"+stageOf(t), "the batch was refused ("+stageOf(t)+") and reported its error; afterwards a write on the same running instance blocks for ever in cache.Transaction.With (RWMutex.Lock on a shared cache whose lock a goroutine of the failed batch took after Commit(true))", t, strings.Join(oc.markers, "\n"))
 		} else {
@@ -361,6 +364,7 @@ func (h *harness) evaluate(bc *batchCtx, oc *outcome) {
 		if rep.LockLeaked {
 			h.mu.Lock()
 			h.hangs[stageOf(t)]++
+			h.hangsKind[stageOf(t)+"/"+t.b.Kind]++
 			h.mu.Unlock()
 			count("outcome:cache-lock-leaked")
 			h.fail("cache-lock-leaked-after-reject:"+stageOf(t), "the batch was refused ("+stageOf(t)+") and reported its error, but a shared cache is left write-locked (a goroutine of the failed batch entered cache.Transaction.With after Commit(true)): every later write touching that index blocks for ever", t, fmt.Sprintf("caches after: %v", rep.CachesPost))
@@ -423,6 +427,7 @@ func (h *harness) evaluate(bc *batchCtx, oc *outcome) {
 		expectPost = oc.has("write-returned ok")
 		h.mu.Lock()
 		h.crashes[stageOf(t)]++
+		h.crashKind[stageOf(t)+"/"+t.b.Kind]++
 		if len(h.samples) < 6 {
 			h.samples = append(h.samples, fmt.Sprintf("crash batch=%d variant=%s fault=%s: %s", t.batch, t.variant, t.fault, clip(sum)))
 		}
@@ -713,9 +718,9 @@ func main() {
 			*par = 2
 		}
 	}
-	nBatches, maxIns, nreps := 9, 5, 3
+	nBatches, maxIns, nreps := 14, 5, 6
 	if thorough {
-		nBatches, maxIns, nreps = 12, 6, 8
+		nBatches, maxIns, nreps = 24, 7, 16
 	}
 	if *nb > 0 {
 		nBatches = *nb
@@ -725,7 +730,7 @@ func main() {
 	}
 	rng := vh.NewRng(*seed)
 	h := &harness{sc: genScenario(*seed, nBatches, maxIns), dir: filepath.Join(*dir, "work"), timeout: 15 * time.Second, o: vh.NewOut(*dir),
-		stats: map[string]int{}, crashes: map[string]int{}, hangs: map[string]int{}, runsBy: map[string]int{}, fails: map[string]bool{}}
+		stats: map[string]int{}, crashes: map[string]int{}, hangs: map[string]int{}, runsKind: map[string]int{}, hangsKind: map[string]int{}, crashKind: map[string]int{}, runsBy: map[string]int{}, fails: map[string]bool{}}
 	os.MkdirAll(h.dir, 0o755)
 	sj, _ := json.Marshal(h.sc)
 	h.scnHex = hex.EncodeToString(sj)
@@ -824,10 +829,10 @@ func main() {
 			return q
 		}
 		add("base", bc.b, Fault{Kind: "none"}, 0) // a second fault-free run: guards the canonicaliser against false alarms
-		for _, k := range pickKs(rng, len(ref.Fallible)+1, want(7, 0), thorough) {
+		for _, k := range pickKs(rng, len(ref.Fallible)+1, want(16, 0), thorough) {
 			add("base", bc.b, Fault{Kind: "err", K: k}, 0) // k = len: no fault fires, must equal the fault-free run
 		}
-		for _, k := range pickKs(rng, len(ref.Kinds)+1, want(5, 0), thorough) {
+		for _, k := range pickKs(rng, len(ref.Kinds)+1, want(10, 0), thorough) {
 			add("base", bc.b, Fault{Kind: "exit", K: k}, 0)
 		}
 		for _, k := range pickKs(rng, ref.BmGets, want(3, 0), thorough) {
@@ -839,10 +844,10 @@ func main() {
 				psMut = append(psMut, j)
 			}
 		}
-		for _, x := range pickKs(rng, len(psMut), want(3, 0), thorough) {
+		for _, x := range pickKs(rng, len(psMut), want(4, 0), thorough) {
 			add("base", bc.b, Fault{Kind: "psErr", K: psMut[x]}, 0)
 		}
-		for _, k := range pickKs(rng, len(ref.PS), want(2, 0), thorough) {
+		for _, k := range pickKs(rng, len(ref.PS), want(3, 0), thorough) {
 			add("base", bc.b, Fault{Kind: "psExit", K: k}, 0)
 		}
 		add("base", bc.b, Fault{Kind: "exitPre"}, 0)
@@ -897,6 +902,20 @@ func main() {
 	crashTotal := 0
 	for _, v := range h.crashes {
 		crashTotal += v
+	}
+	// The known defect is a race: a few percent of the failing batches.  A failure mode that hits a
+	// large share of the failing runs of a stage is not that race (e.g. a Commit that is never
+	// called leaks the lock every time): report it under its own signature.
+	for stage, n := range h.runsKind {
+		if n < 12 {
+			continue
+		}
+		if c := h.crashKind[stage]; c >= 5 && c*100 > n*35 {
+			h.o.Fail("crash-systematic:"+stage, fmt.Sprintf("%d of %d runs of a failing batch (%s) killed the process: far above the rate of the known race", c, n, stage), "scenario "+h.scnHex)
+		}
+		if c := h.hangsKind[stage]; c >= 5 && c*100 > n*25 {
+			h.o.Fail("cache-lock-leaked-systematic:"+stage, fmt.Sprintf("%d of %d runs of a failing batch (%s) left a shared cache write-locked: far above the rate of the known race", c, n, stage), "scenario "+h.scnHex)
+		}
 	}
 	kinds := map[string]int{}
 	for _, b := range h.sc.Batches {
